@@ -114,8 +114,11 @@ def addr(a):
     return int(a[1])
 
 
-def run_impl(drv, rc, tmo, table, dflt, ticks):
+def run_impl(drv, rc, tmo, table, dflt, ticks, own=True):
     """drv in Bare|Patron|Stack; rc bool; tmo int ticks; ticks = [(dt, cut)].
+    own=True: Patron / TcpClientStack build their tcp Client THEMSELVES (Patron.__init__ /
+    TcpClientStack.createHandler) and the harness advances ONLY the owner's store; own=False: the
+    harness constructs the Client and hands it over (connector= / handler=).
     returns (flat observation list, info dict)"""
     from ioflo.aio.tcp import clienting
     from ioflo.base import storing
@@ -126,15 +129,26 @@ def run_impl(drv, rc, tmo, table, dflt, ticks):
     clienting.socket = FakeSocketModule(w)
     try:
         store = storing.Store(stamp=0.0)
-        client = clienting.Client(ha=('127.0.0.1', HA0), store=store, timeout=tmo * TICK,
-                                  reconnectable=rc)
         top = None
+        if drv == "Bare" or not own:
+            client = clienting.Client(ha=('127.0.0.1', HA0), store=store, timeout=tmo * TICK,
+                                      reconnectable=rc)
         if drv == "Patron":
             from ioflo.aio.http import clienting as hclienting
-            top = hclienting.Patron(connector=client, store=store)
+            if own:
+                top = hclienting.Patron(store=store, hostname='127.0.0.1', port=HA0,
+                                        reconnectable=rc, timeout=tmo * TICK)
+                client = top.connector
+            else:
+                top = hclienting.Patron(connector=client, store=store)
         elif drv == "Stack":
             from ioflo.aio.proto import stacking
-            top = stacking.TcpClientStack(handler=client, stamper=store, ha=('127.0.0.1', HA0))
+            if own:
+                top = stacking.TcpClientStack(stamper=store, ha=('127.0.0.1', HA0), timeout=tmo * TICK)
+                client = top.handler
+                client.reconnectable = rc     # createHandler has no reconnectable parameter
+            else:
+                top = stacking.TcpClientStack(handler=client, stamper=store, ha=('127.0.0.1', HA0))
 
         def obs():
             cs = client.cs
